@@ -23,7 +23,7 @@ ASSUMPTIONS = ["(a) is required within the accumulated ODE tolerance (the runs d
                "(b)-(d) are required bit-identical as the property states"]
 TOLERANCES = {"a": "5e-3 + 1e-3*(N + 2*strain)", "b,c,d": "bit-identical"}
 REQUIRED_MONITORS = ["a:textures_related", "b:permutation_bit_identical", "c:interleaving_bit_identical",
-                     "c:update_all_order_bit_identical", "d:determinism_bit_identical"]
+                     "c:update_all_order_bit_identical", "d:determinism_bit_identical", "e:mutated_params_dict_equals_fresh_dict"]
 
 
 def plan(tier):
@@ -111,6 +111,23 @@ def check_case(ctx, case):
     m_again = H.mineral()
     H.run(m_again)
     ctx.check("d:determinism_bit_identical", _same(m_again, m_multi), case)
+    # (e) no hidden state tied to the identity of the parameter dictionary: the *same dict object* is
+    # mutated in place (different fractions) between two runs and must behave like a fresh dict
+    phi2 = 1.0 - phi if abs(phi - 0.5) > 0.05 else 0.9
+    mutable = dict(H.params)
+    warm = H.mineral()
+    try:
+        H.run(warm, params=mutable)                                   # first use of this dict object
+        mutable["phase_fractions"] = (phi2, 1.0 - phi2)               # in-place change of the same object
+        m_mut = H.mineral()
+        H.run(m_mut, params=mutable)
+        freshd = dict(H.params)
+        freshd["phase_fractions"] = (phi2, 1.0 - phi2)
+        m_fresh = H.mineral()
+        H.run(m_fresh, params=freshd)
+        ctx.check("e:mutated_params_dict_equals_fresh_dict", _same(m_mut, m_fresh), case, phi=phi, phi2=phi2)
+    except Exception as e:
+        ctx.check("e:mutated_params_dict_equals_fresh_dict", False, case, key=f"raises/{type(e).__name__}", exc=str(e)[:200])
     # (c) interleaving with other minerals and update_all order
     other_phase = H.params["phase_assemblage"][1]
     other_fab = core.MineralFabric.enstatite_AB if other_phase == core.MineralPhase.enstatite else core.MineralFabric.olivine_A
